@@ -105,7 +105,7 @@ func h17Bad() string {
 // H17: composition universe, every start node x every target node.
 func H17() {
 	sc := hcGenerate(param("n"))
-	note(sc.texts[0] + sc.texts[1] + sc.texts[2] + sc.texts[3])
+	note(sc.texts[0] + sc.texts[1] + sc.texts[2] + sc.texts[3] + sc.texts[4])
 	ms, lerrs := hLoad(sc.texts...)
 	check(len(lerrs) == 0, "the generated modules parse")
 	if len(lerrs) > 0 {
